@@ -39,108 +39,74 @@ def sampleReq : Option Opt :=
 /-! ## UDP bound -/
 
 /-- **udp_wire_le.** On UDP (plain or DNSCrypt) the bytes sent never exceed the stated limit,
-except that header + question + OPT record are always sent: the exact bound is
-`max limit (q + OPT)`.  `htsig`: `Msg.Truncate` does not touch a message whose last record is a
+except that header + question + a bare OPT record (11 bytes) are always sent: the exact bound is
+`max limit (q + 11)`.  `htsig`: `Msg.Truncate` does not touch a message whose last record is a
 TSIG (see `udp_bound_tsig_counterexample`). -/
 theorem udp_wire_le (t : Transport) (ht : t.isUdp = true) (cfgMax idle : Nat) (req : Option Opt)
     (r : Resp) (draw slack : Nat) (hc : Contract r) (htsig : tsigAtTruncate req r = false) :
-    (serve t cfgMax idle req r draw slack).wire
-      ≤ max (limit req (t.cap cfgMax)) (r.q + optLen? (baseOpt false req r)) := by
+    (serve t cfgMax idle req r draw slack).wire ≤ max (limit req (t.cap cfgMax)) (r.q + 11) := by
   have hp : t.hasPadding = false := by cases t <;> simp_all [Transport.isUdp, Transport.hasPadding]
   have hk : t.hasKeepAlive = false := by cases t <;> simp_all [Transport.isUdp, Transport.hasKeepAlive]
-  have hb := finalLen_truncate_le (maxDNSSize t.isUdp (advertised req) (t.cap cfgMax)) r
-    (baseOpt false req r) hc
-  rw [serve_wire, serve_cut, htsig]
-  simp only [prePack, normalizeG, hk, padStep_plain t hp, Bool.false_eq_true, ↓reduceIte]
-  have hl : max (maxDNSSize t.isUdp (advertised req) (t.cap cfgMax)) minMsgSize
-      = limit req (t.cap cfgMax) := by
+  have hl : maxDNSSize t.isUdp (advertised req) (t.cap cfgMax) = limit req (t.cap cfgMax) := by
     simp only [maxDNSSize, ht, limit, minMsgSize]
     simp only [Bool.not_true, Bool.false_eq_true, ↓reduceIte]
     omega
-  rw [hl] at hb
+  have hb := finalLen_dropOpts_le (maxDNSSize t.isUdp (advertised req) (t.cap cfgMax)) r
+    (baseOpt false req r) hc (by rw [hl]; unfold limit minMsgSize; omega)
+  rw [serve_wire, serve_cut, htsig]
+  simp only [prePack, normalizeG, hk, padStep_plain t hp, Bool.false_eq_true, ↓reduceIte,
+    truncOpt_false, htsig]
+  rw [hl] at hb ⊢
   omega
 
-/-- On UDP nothing is appended after truncation: the OPT record sent is the one `baseOpt`
-computes from the request and the handler's response alone (up to the extended-rcode byte). -/
-theorem udp_opt_is_base (t : Transport) (ht : t.isUdp = true) (cfgMax idle : Nat) (req : Option Opt)
+/-- On UDP nothing is appended after truncation: the OPT record sent is the one the `truncate`
+call leaves (up to the extended-rcode byte). -/
+theorem udp_opt_is_trunc (t : Transport) (ht : t.isUdp = true) (cfgMax idle : Nat) (req : Option Opt)
     (r : Resp) (draw slack : Nat) :
-    (serve t cfgMax idle req r draw slack).opt = packOpt r.rcodeHi (baseOpt false req r) := by
+    (serve t cfgMax idle req r draw slack).opt = packOpt r.rcodeHi (truncOpt false t cfgMax req r) := by
   have hp : t.hasPadding = false := by cases t <;> simp_all [Transport.isUdp, Transport.hasPadding]
   have hk : t.hasKeepAlive = false := by cases t <;> simp_all [Transport.isUdp, Transport.hasKeepAlive]
   rw [serve_opt]
   simp only [prePack, normalizeG, hk, padStep_plain t hp, Bool.false_eq_true, ↓reduceIte]
 
-/-- **udp_bound_partial.** When header + question + the OPT record fit the limit (a condition on
-the *inputs*: `baseOpt` is the handler's own OPT record, or else the reflection of the client's
-NSID/EXPIRE options), the UDP response is never larger than `max(512, min(advertised, configured))`.
-PARTIAL: `hfit` excludes responses whose un-droppable part alone is too large (known findings
-`udp-oversize-reflected-option-payload`, `udp-oversize-handler-opt-undroppable`), `htsig` excludes
-TSIG-signed handler responses (`udp-oversize-tsig-not-truncated`). -/
-theorem udp_bound_partial (t : Transport) (ht : t.isUdp = true) (cfgMax idle : Nat)
+/-- **udp_bound.** The UDP clause at full strength for every handler response that is not
+TSIG-terminated: whatever the response (any size, any section mix, own OPT record with any options
+or none), whatever the client advertised and reflected (any NSID/EXPIRE payload) and whatever the
+configured cap, the bytes on the wire are at most `max(512, min(advertised, configured))`.
+`hq`: header + question + a bare OPT record fit 512 bytes, i.e. the question section is at most
+489 bytes — true of every single-question message (a name is at most 255 bytes). -/
+theorem udp_bound (t : Transport) (ht : t.isUdp = true) (cfgMax idle : Nat)
     (req : Option Opt) (r : Resp) (draw slack : Nat) (hc : Contract r)
-    (htsig : tsigAtTruncate req r = false)
-    (hfit : r.q + optLen? (baseOpt false req r) ≤ limit req (t.cap cfgMax)) :
+    (htsig : tsigAtTruncate req r = false) (hq : r.q + 11 ≤ 512) :
     (serve t cfgMax idle req r draw slack).wire ≤ limit req (t.cap cfgMax) := by
   have := udp_wire_le t ht cfgMax idle req r draw slack hc htsig
+  have h512 : 512 ≤ limit req (t.cap cfgMax) := by unfold limit; omega
   omega
 
-/-- **udp_bound_everyday.** The full UDP clause for the everyday class of traffic: the handler's
-response has no OPT record and no TSIG of its own (what the cache and the forwarder produce),
-header + question are at most 300 bytes (a question is at most 12 + 255 + 4), and the NSID/EXPIRE
-options the client sent total at most 200 bytes: *every* such response, of any size and section
-mix, to *any* advertised size and cap, respects the limit. -/
+/-- **udp_bound_everyday.** Corollary for the everyday class of traffic: the handler's response has
+no TSIG of its own and header + question are at most 300 bytes (a question is at most
+12 + 255 + 4). -/
 theorem udp_bound_everyday (t : Transport) (ht : t.isUdp = true) (cfgMax idle : Nat)
     (req : Option Opt) (r : Resp) (draw slack : Nat) (hc : Contract r)
-    (hopt : r.opt = none) (htsig : r.tsig = false) (hq : r.q ≤ 300)
-    (hrefl : ∀ ro, req = some ro → optsLen (filterSupported ro.opts) ≤ 200) :
-    (serve t cfgMax idle req r draw slack).wire ≤ limit req (t.cap cfgMax) := by
-  apply udp_bound_partial t ht cfgMax idle req r draw slack hc
-  · simp [tsigAtTruncate, htsig]
-  · have h512 : 512 ≤ limit req (t.cap cfgMax) := by unfold limit; omega
-    cases req with
-    | none => simp only [baseOpt, hopt, optLen?]; omega
-    | some ro =>
-      have := hrefl ro rfl
-      simp only [baseOpt, hopt, optLen?, optLen, synthOpt]
-      omega
-
-/-- **udp_no_amplification.** Even in the region `udp_bound_partial` excludes, a response whose
-OPT record is synthesised is never larger than the stated limit or than header + question + the
-client's own OPT record, i.e. than the query (the response repeats the query's question). -/
-theorem udp_no_amplification (t : Transport) (ht : t.isUdp = true) (cfgMax idle : Nat)
-    (req : Option Opt) (r : Resp) (draw slack : Nat) (hc : Contract r)
-    (hopt : r.opt = none) (htsig : r.tsig = false) :
-    (serve t cfgMax idle req r draw slack).wire
-      ≤ max (limit req (t.cap cfgMax)) (r.q + optLen? req) := by
-  have h := udp_wire_le t ht cfgMax idle req r draw slack hc (by simp [tsigAtTruncate, htsig])
-  have : optLen? (baseOpt false req r) ≤ optLen? req := by
-    cases req with
-    | none => simp [baseOpt, hopt, optLen?]
-    | some ro =>
-      simp only [baseOpt, hopt, optLen?, optLen, synthOpt]
-      have := optsLen_filterSupported_le ro.opts
-      omega
-  omega
+    (htsig : r.tsig = false) (hq : r.q ≤ 300) :
+    (serve t cfgMax idle req r draw slack).wire ≤ limit req (t.cap cfgMax) :=
+  udp_bound t ht cfgMax idle req r draw slack hc (by simp [tsigAtTruncate, htsig]) (by omega)
 
 example : Contract sampleResp ∧ tsigAtTruncate sampleReq sampleResp = false ∧
-    sampleResp.q + optLen? (baseOpt false sampleReq sampleResp) ≤ limit sampleReq 1232 ∧
+    sampleResp.q + 11 ≤ 512 ∧
     (serve .udp 1232 0 sampleReq sampleResp 0 0).wire = 72 ∧
     (serve .udp 1232 0 sampleReq sampleResp 0 0).cut = { ka := 0, kn := 1, ke := 0, tc := true } :=
   ⟨sampleResp_contract, by decide, by decide, by decide, by decide⟩
 
-example : sampleResp.opt = none ∧ sampleResp.tsig = false ∧ sampleResp.q ≤ 300 ∧
-    (∀ ro, nsidSmallReq = some ro → optsLen (filterSupported ro.opts) ≤ 200) ∧
+example : sampleResp.tsig = false ∧ sampleResp.q ≤ 300 ∧
     (serve .dcUdp 0 0 nsidSmallReq sampleResp 0 0).wire = 598 := by
-  refine ⟨rfl, rfl, by decide, ?_, by decide⟩
-  intro ro h
-  cases h
-  decide
+  refine ⟨rfl, by decide, by decide⟩
 
-/-- The full statement of the UDP clause. -/
-def UdpBoundFull : Prop :=
+/-- The full statement of the UDP clause for one generation of the code. -/
+def UdpBoundFullG (legacy : Bool) : Prop :=
   ∀ (t : Transport), t.isUdp = true → ∀ (cfgMax idle : Nat) (req : Option Opt) (r : Resp)
-    (draw slack : Nat), Contract r →
-    (serve t cfgMax idle req r draw slack).wire ≤ limit req (t.cap cfgMax)
+    (draw slack : Nat), Contract r → r.q + 11 ≤ 512 →
+    (serveG legacy t cfgMax idle req r draw slack).wire ≤ limit req (t.cap cfgMax)
 
 def nsidReq : Option Opt :=
   some { udpSize := 512, extRcode := 0, version := 0, dobit := false, z := 0,
@@ -155,12 +121,18 @@ theorem smallResp_contract : Contract smallResp := by
   · intro kn; simp [smallResp, sum]
   · intro ke; simp [smallResp, sum]
 
-/-- **udp_bound_counterexample.** The full UDP clause is false: a query advertising 512 bytes with
-a 700-byte NSID option gets 744 bytes back (reflected option payload is not droppable). -/
-theorem udp_bound_counterexample : ¬ UdpBoundFull := by
+/-- **udp_bound_legacy_counterexample.** Before the `fix:` commit the UDP clause was false even
+without TSIG: a query advertising 512 bytes with a 700-byte NSID option got 744 bytes back (the
+reflected option payload was not droppable).  The repaired code answers with 40 bytes. -/
+theorem udp_bound_legacy_counterexample : ¬ UdpBoundFullG true := by
   intro h
-  have := h .udp (by decide) 1232 0 nsidReq smallResp 0 0 smallResp_contract
+  have := h .udp (by decide) 1232 0 nsidReq smallResp 0 0 smallResp_contract (by decide)
   revert this
+  decide
+
+example : (serveG true .udp 1232 0 nsidReq smallResp 0 0).wire = 744 ∧
+    (serve .udp 1232 0 nsidReq smallResp 0 0).wire = 40 ∧
+    (serve .udp 1232 0 nsidReq smallResp 0 0).cut = { ka := 0, kn := 0, ke := 0, tc := true } := by
   decide
 
 def tsigResp : Resp :=
@@ -172,15 +144,12 @@ theorem tsigResp_contract : Contract tsigResp := by
   · intro kn; simp [tsigResp, sum]
   · intro ke; cases ke <;> simp [tsigResp, sum]
 
-/-- **udp_bound_tsig_counterexample.** `Msg.Truncate` leaves a message whose last record is a TSIG
-untouched: to a query without OPT such a 945-byte handler response is sent whole over UDP
-(limit 512), header + question being only 29 bytes.  (With a request OPT the synthesised OPT
-record is appended *after* the TSIG, `IsTsig` no longer sees it, and truncation works.) -/
-theorem udp_bound_tsig_counterexample :
-    ¬ ∀ (t : Transport), t.isUdp = true → ∀ (cfgMax idle : Nat) (req : Option Opt) (r : Resp)
-        (draw slack : Nat), Contract r →
-        r.q + optLen? (baseOpt false req r) ≤ limit req (t.cap cfgMax) →
-        (serve t cfgMax idle req r draw slack).wire ≤ limit req (t.cap cfgMax) := by
+/-- **udp_bound_tsig_counterexample.** The one region `udp_bound` still excludes is real.
+`Msg.Truncate` leaves a message whose last record is a TSIG untouched: to a query without OPT such
+a 945-byte handler response is sent whole over UDP (limit 512).  (With a request OPT the
+synthesised OPT record is appended *after* the TSIG, `IsTsig` no longer sees it, and truncation
+works.) -/
+theorem udp_bound_tsig_counterexample : ¬ UdpBoundFullG false := by
   intro h
   have := h .udp (by decide) 1232 0 none tsigResp 0 0 tsigResp_contract (by decide)
   revert this
@@ -242,13 +211,13 @@ version 0 — on every transport, whether the handler's response had an OPT reco
 theorem opt_echo (t : Transport) (cfgMax idle : Nat) (ro : Opt) (r : Resp) (draw slack : Nat) :
     ∃ o, (serve t cfgMax idle (some ro) r draw slack).opt = some o ∧ o.udpSize = ro.udpSize ∧
       o.version = 0 := by
+  obtain ⟨b, hb, hs, hv⟩ := truncOpt_echo t cfgMax ro r
   have hpre : ∃ o, prePack t cfgMax idle (some ro) r draw = some o ∧ o.udpSize = ro.udpSize ∧
       o.version = 0 := by
-    simp only [prePack, normalizeG, baseOpt, padStep, addKeepAlive]
-    cases hr : r.opt <;> simp only [] <;>
-      by_cases hk : t.hasKeepAlive = true <;> by_cases hp : t.hasPadding = true <;>
+    simp only [prePack, normalizeG, hb, padStep, addKeepAlive]
+    by_cases hk : t.hasKeepAlive = true <;> by_cases hp : t.hasPadding = true <;>
       simp only [hk, hp, ↓reduceIte, padAnswer] <;>
-      (repeat' split) <;> simp [rewriteOpt, synthOpt]
+      (repeat' split) <;> simp [hs, hv]
   obtain ⟨o, ho, h1, h2⟩ := hpre
   obtain ⟨o', ho', e1, e2, _, _⟩ := packOpt_some r.rcodeHi _ o ho
   exact ⟨o', by rw [serve_opt]; exact ho', by omega, by omega⟩
@@ -284,28 +253,24 @@ def reqHas (c : Nat) : Option Opt → Bool
 
 /-- **padding_only_when.** Unless the transport is DoT/DoH/DoQ *and* the client sent the padding
 option, the padding options of the response are exactly those of the handler's response (none,
-when the OPT record is synthesised): the server adds or alters no padding. -/
+when the OPT record is synthesised) or none at all (when the options of an oversize OPT record
+were removed): the server adds or alters no padding. -/
 theorem padding_only_when (t : Transport) (cfgMax idle : Nat) (req : Option Opt) (r : Resp)
     (draw slack : Nat) (h : ¬ (t.hasPadding = true ∧ reqHas codePadding req = true)) :
-    lensOf? codePadding (serve t cfgMax idle req r draw slack).opt = lensOf? codePadding r.opt := by
-  have hne : codeKeepAlive ≠ codePadding := by decide
-  rw [serve_opt, lensOf?_packOpt]
-  simp only [prePack, normalizeG, baseOpt, padStep, addKeepAlive]
-  cases req with
-  | none => cases hr : r.opt <;> simp
-  | some ro =>
-    have h' : t.hasPadding = false ∨ hasCode codePadding ro.opts = false := by
-      simp only [reqHas] at h
-      by_cases hp : t.hasPadding = true
-      · right; simpa [hp] using h
-      · left; simpa using hp
-    cases hr : r.opt <;> simp only [] <;>
-      by_cases hk : t.hasKeepAlive = true <;>
-      simp only [hk, ↓reduceIte, Bool.false_eq_true, padAnswer] <;>
-      rcases h' with h' | h' <;> simp only [h', ↓reduceIte, Bool.false_eq_true] <;>
-      (repeat' split) <;>
-      simp [lensOf?, lensOf_setOpt_ne _ _ _ _ hne, rewriteOpt, synthOpt,
-        lensOf_filterSupported codePadding _ (by decide) (by decide)]
+    lensOf? codePadding (serve t cfgMax idle req r draw slack).opt = lensOf? codePadding r.opt ∨
+    lensOf? codePadding (serve t cfgMax idle req r draw slack).opt = [] := by
+  have hpre : lensOf? codePadding (prePack t cfgMax idle req r draw)
+      = lensOf? codePadding (truncOpt false t cfgMax req r) := by
+    have hp := lensOf_padStep codePadding t req (truncOpt false t cfgMax req r) draw
+      (Or.inr (by cases req <;> simpa [reqHas] using h))
+    simp only [prePack, normalizeG]
+    by_cases hk : t.hasKeepAlive = true
+    · simp only [hk, ↓reduceIte]
+      rw [lensOf_addKeepAlive codePadding req _ idle (Or.inl (by decide)), hp]
+    · simp only [hk, Bool.false_eq_true, ↓reduceIte]
+      exact hp
+  rw [serve_opt, lensOf?_packOpt, hpre]
+  exact lensOf_truncOpt codePadding t cfgMax req r (by decide) (by decide)
 
 /-- **padding_when_added.** On DoT/DoH/DoQ, for a client that sent the padding option, the response
 carries a padding option of 1..31 bytes. -/
@@ -313,8 +278,7 @@ theorem padding_when_added (t : Transport) (cfgMax idle : Nat) (ro : Opt) (r : R
     (draw slack : Nat) (ht : t.hasPadding = true) (hp : hasCode codePadding ro.opts = true) :
     ∃ o e, (serve t cfgMax idle (some ro) r draw slack).opt = some o ∧ e ∈ o.opts ∧
       e.code = codePadding ∧ 1 ≤ e.len ∧ e.len ≤ 31 := by
-  obtain ⟨b, hb⟩ : ∃ b, baseOpt false (some ro) r = some b := by
-    unfold baseOpt; cases r.opt <;> simp
+  obtain ⟨b, hb, _, _⟩ := truncOpt_echo t cfgMax ro r
   obtain ⟨e, he, h1, h2, h3⟩ := padAnswer_mem ro b draw hp
   obtain ⟨o', ho', hmem⟩ := addKeepAlive_some_mem ro (padAnswer ro b draw) idle
   have hpre : ∃ o, prePack t cfgMax idle (some ro) r draw = some o ∧ e ∈ o.opts := by
@@ -334,29 +298,25 @@ example : Transport.hasPadding .dot = true ∧ reqHas codePadding sampleReq = tr
 
 /-- **keepalive_only_when.** Unless the response is written by the TCP/DoT writer *and* the client
 sent the keep-alive option, the keep-alive options of the response are exactly those of the
-handler's response (none, when the OPT record is synthesised). -/
+handler's response (none, when the OPT record is synthesised) or none at all (oversize OPT record
+stripped of its options). -/
 theorem keepalive_only_when (t : Transport) (cfgMax idle : Nat) (req : Option Opt) (r : Resp)
     (draw slack : Nat) (h : ¬ (t.hasKeepAlive = true ∧ reqHas codeKeepAlive req = true)) :
-    lensOf? codeKeepAlive (serve t cfgMax idle req r draw slack).opt
-      = lensOf? codeKeepAlive r.opt := by
-  have hne : codePadding ≠ codeKeepAlive := by decide
-  rw [serve_opt, lensOf?_packOpt]
-  simp only [prePack, normalizeG, baseOpt, padStep, addKeepAlive]
-  cases req with
-  | none => cases hr : r.opt <;> by_cases hk : t.hasKeepAlive = true <;> simp [hk]
-  | some ro =>
-    have h' : t.hasKeepAlive = false ∨ hasCode codeKeepAlive ro.opts = false := by
-      simp only [reqHas] at h
-      by_cases hp : t.hasKeepAlive = true
-      · right; simpa [hp] using h
-      · left; simpa using hp
-    cases hr : r.opt <;> simp only [] <;>
-      by_cases hp : t.hasPadding = true <;>
-      simp only [hp, ↓reduceIte, Bool.false_eq_true, padAnswer] <;>
-      rcases h' with h' | h' <;> simp only [h', ↓reduceIte, Bool.false_eq_true] <;>
-      (repeat' split) <;>
-      simp [lensOf?, lensOf_setOpt_ne _ _ _ _ hne, rewriteOpt, synthOpt,
-        lensOf_filterSupported codeKeepAlive _ (by decide) (by decide)]
+    lensOf? codeKeepAlive (serve t cfgMax idle req r draw slack).opt = lensOf? codeKeepAlive r.opt ∨
+    lensOf? codeKeepAlive (serve t cfgMax idle req r draw slack).opt = [] := by
+  have hpre : lensOf? codeKeepAlive (prePack t cfgMax idle req r draw)
+      = lensOf? codeKeepAlive (truncOpt false t cfgMax req r) := by
+    have hp := lensOf_padStep codeKeepAlive t req (truncOpt false t cfgMax req r) draw
+      (Or.inl (by decide))
+    simp only [prePack, normalizeG]
+    by_cases hk : t.hasKeepAlive = true
+    · simp only [hk, ↓reduceIte]
+      rw [lensOf_addKeepAlive codeKeepAlive req _ idle
+        (Or.inr (by cases req <;> simpa [reqHas, hk] using h)), hp]
+    · simp only [hk, Bool.false_eq_true, ↓reduceIte]
+      exact hp
+  rw [serve_opt, lensOf?_packOpt, hpre]
+  exact lensOf_truncOpt codeKeepAlive t cfgMax req r (by decide) (by decide)
 
 example : lensOf? codeKeepAlive (serve .dot 0 30000 sampleReq sampleResp 6 0).opt = [2] ∧
     lensOf? codeKeepAlive (serve .doh 0 30000 sampleReq sampleResp 6 0).opt = [] ∧
@@ -374,39 +334,43 @@ theorem stream_guard (t : Transport) (ht : t.guarded = true) (cfgMax idle : Nat)
   omega
 
 /-- **stream_len_le.** On every non-UDP transport the final message is at most 65535 bytes plus what
-is appended after truncation (padding ≤ 35, keep-alive ≤ 6), unless header + question + OPT alone
-exceed 65535. -/
+is appended after truncation (padding ≤ 35, keep-alive ≤ 6), unless header + question + a bare OPT
+record alone exceed 65535. -/
 theorem stream_len_le (t : Transport) (ht : t.isUdp = false) (cfgMax idle : Nat) (req : Option Opt)
     (r : Resp) (draw slack : Nat) (hc : Contract r) (htsig : tsigAtTruncate req r = false) :
-    (serve t cfgMax idle req r draw slack).wire
-      ≤ max 65535 (r.q + optLen? (baseOpt false req r)) + 41 := by
-  have hb := finalLen_truncate_le (maxDNSSize t.isUdp (advertised req) (t.cap cfgMax)) r
-    (baseOpt false req r) hc
-  have hl : max (maxDNSSize t.isUdp (advertised req) (t.cap cfgMax)) minMsgSize = 65535 := by
-    simp [maxDNSSize, ht, maxMsgSize, minMsgSize]
-  rw [hl] at hb
-  have h1 := optLen_padStep_le t req (baseOpt false req r) draw
-  have h2 := optLen_addKeepAlive_le req (padStep t req (baseOpt false req r) draw) idle
+    (serve t cfgMax idle req r draw slack).wire ≤ max 65535 (r.q + 11) + 41 := by
+  have hl : maxDNSSize t.isUdp (advertised req) (t.cap cfgMax) = 65535 := by
+    simp [maxDNSSize, ht, maxMsgSize]
+  have hb := finalLen_dropOpts_le (maxDNSSize t.isUdp (advertised req) (t.cap cfgMax)) r
+    (baseOpt false req r) hc (by rw [hl]; unfold minMsgSize; omega)
+  have h1 := optLen_padStep_le t req (truncOpt false t cfgMax req r) draw
+  have h2 := optLen_addKeepAlive_le req (padStep t req (truncOpt false t cfgMax req r) draw) idle
   rw [serve_wire, serve_cut, htsig]
   simp only [prePack, normalizeG]
+  rw [truncOpt_false, htsig] at h1 h2 ⊢
+  rw [hl] at hb h1 h2 ⊢
   by_cases hk : t.hasKeepAlive = true
   · simp only [hk, ↓reduceIte]
-    have := finalLen_opt_le r (truncate false (maxDNSSize t.isUdp (advertised req) (t.cap cfgMax)) r
-      (baseOpt false req r)) (baseOpt false req r)
-      (addKeepAlive req (padStep t req (baseOpt false req r) draw) idle) 41 (by omega)
+    have := finalLen_opt_le r (truncate false 65535 r (baseOpt false req r))
+      (dropOpts 65535 r (truncate false 65535 r (baseOpt false req r)) (baseOpt false req r))
+      (addKeepAlive req (padStep t req
+        (dropOpts 65535 r (truncate false 65535 r (baseOpt false req r)) (baseOpt false req r)) draw) idle)
+      41 (by omega)
     omega
   · simp only [hk, Bool.false_eq_true, ↓reduceIte]
-    have := finalLen_opt_le r (truncate false (maxDNSSize t.isUdp (advertised req) (t.cap cfgMax)) r
-      (baseOpt false req r)) (baseOpt false req r)
-      (padStep t req (baseOpt false req r) draw) 41 (by omega)
+    have := finalLen_opt_le r (truncate false 65535 r (baseOpt false req r))
+      (dropOpts 65535 r (truncate false 65535 r (baseOpt false req r)) (baseOpt false req r))
+      (padStep t req
+        (dropOpts 65535 r (truncate false 65535 r (baseOpt false req r)) (baseOpt false req r)) draw)
+      41 (by omega)
     omega
 
 /-- Nothing is appended after truncation: not on DNSCrypt, not on DoH/DoQ for a client that sent
 no padding option. -/
-theorem prePack_is_base (t : Transport) (cfgMax idle : Nat) (req : Option Opt) (r : Resp)
+theorem prePack_is_trunc (t : Transport) (cfgMax idle : Nat) (req : Option Opt) (r : Resp)
     (draw : Nat) (hk : t.hasKeepAlive = false)
     (hp : t.hasPadding = false ∨ reqHas codePadding req = false) :
-    prePack t cfgMax idle req r draw = baseOpt false req r := by
+    prePack t cfgMax idle req r draw = truncOpt false t cfgMax req r := by
   simp only [prePack, normalizeG, hk, Bool.false_eq_true, ↓reduceIte]
   rcases hp with hp | hp
   · exact padStep_plain t hp _ _ _
@@ -415,19 +379,19 @@ theorem prePack_is_base (t : Transport) (cfgMax idle : Nat) (req : Option Opt) (
     | none => rfl
     | some ro =>
       have : hasCode codePadding ro.opts = false := hp
-      cases baseOpt false (some ro) r <;> simp [padAnswer, this]
+      cases truncOpt false t cfgMax (some ro) r <;> simp [padAnswer, this]
 
 /-- **stream_bound_partial.** Every DNS message that leaves over a stream transport is at most
 65535 bytes — on TCP, DoT and DoQ unconditionally (`packWithPrefix`), on DNSCrypt/TCP and on DoH
-when header + question + OPT fit and the response is not TSIG-signed — with ONE exception:
+when the response is not TSIG-signed (header + question + 11 ≤ 65535 holds for any message that
+parses) — with ONE exception:
 PARTIAL: DoH to a client that sent the padding option (padding is appended after truncation and
 DoH has no length guard: known finding `doh-oversize-padding-after-truncate`, bound
 `stream_len_le`). -/
 theorem stream_bound_partial (t : Transport) (ht : t.isUdp = false) (cfgMax idle : Nat)
     (req : Option Opt) (r : Resp) (draw slack : Nat) (hc : Contract r)
     (he : (serve t cfgMax idle req r draw slack).emitted = true)
-    (hfit : t.guarded = false →
-      tsigAtTruncate req r = false ∧ r.q + optLen? (baseOpt false req r) ≤ 65535)
+    (hfit : t.guarded = false → tsigAtTruncate req r = false ∧ r.q + 11 ≤ 65535)
     (hex : ¬ (t = .doh ∧ reqHas codePadding req = true)) :
     (serve t cfgMax idle req r draw slack).wire ≤ 65535 := by
   by_cases hg : t.guarded = true
@@ -438,18 +402,18 @@ theorem stream_bound_partial (t : Transport) (ht : t.isUdp = false) (cfgMax idle
       cases t <;> simp_all [Transport.guarded, Transport.hasKeepAlive]
     have hp : t.hasPadding = false ∨ reqHas codePadding req = false := by
       cases t <;> simp_all [Transport.guarded, Transport.hasPadding, Transport.isUdp]
-    have hb := finalLen_truncate_le (maxDNSSize t.isUdp (advertised req) (t.cap cfgMax)) r
-      (baseOpt false req r) hc
-    have hl : max (maxDNSSize t.isUdp (advertised req) (t.cap cfgMax)) minMsgSize = 65535 := by
-      simp [maxDNSSize, ht, maxMsgSize, minMsgSize]
-    rw [hl] at hb
-    rw [serve_wire, serve_cut, htsig, prePack_is_base t cfgMax idle req r draw hk hp]
+    have hl : maxDNSSize t.isUdp (advertised req) (t.cap cfgMax) = 65535 := by
+      simp [maxDNSSize, ht, maxMsgSize]
+    have hb := finalLen_dropOpts_le (maxDNSSize t.isUdp (advertised req) (t.cap cfgMax)) r
+      (baseOpt false req r) hc (by rw [hl]; unfold minMsgSize; omega)
+    rw [serve_wire, serve_cut, htsig, prePack_is_trunc t cfgMax idle req r draw hk hp,
+      truncOpt_false, htsig]
+    rw [hl] at hb ⊢
     omega
 
 example : Contract sampleResp ∧ (serve .doh 0 0 none sampleResp 0 0).emitted = true ∧
     (Transport.guarded .doh = false →
-      tsigAtTruncate none sampleResp = false ∧
-      sampleResp.q + optLen? (baseOpt false none sampleResp) ≤ 65535) ∧
+      tsigAtTruncate none sampleResp = false ∧ sampleResp.q + 11 ≤ 65535) ∧
     ¬ (Transport.doh = .doh ∧ reqHas codePadding none = true) ∧
     (serve .doh 0 0 none sampleResp 0 0).wire = 575 :=
   ⟨sampleResp_contract, by decide, fun _ => ⟨by decide, by decide⟩, by decide, by decide⟩
@@ -565,16 +529,14 @@ theorem respond_stream_guard (t : Transport) (ht : t.guarded = true) (cfgMax idl
   obtain ⟨he, r', d', s', rfl, _⟩ := respond_is_serve t cfgMax idle hdr qe req h draw slack draw2 o ho
   exact stream_guard t ht cfgMax idle req r' d' s' he
 
-/-- **respond_udp_bound_partial.** UDP: whatever one query causes on the wire respects the limit,
-under the same two exclusions as `udp_bound_partial` for the handler's own response; a
-server-made error response needs only header + question + reflected options to fit. -/
-theorem respond_udp_bound_partial (t : Transport) (ht : t.isUdp = true) (cfgMax idle : Nat)
+/-- **respond_udp_bound.** UDP: whatever one query causes on the wire — the handler's response or a
+server-made error response — respects the limit; the only exclusion left is a TSIG-terminated
+handler response.  `hq`: header + first question + 11 ≤ 512. -/
+theorem respond_udp_bound (t : Transport) (ht : t.isUdp = true) (cfgMax idle : Nat)
     (hdr : QHdr) (qe : Nat) (req : Option Opt) (h : Handler) (draw slack draw2 : Nat) (o : Out)
     (ho : respond t cfgMax idle hdr qe req h draw slack draw2 = some o)
-    (hh : ∀ r, h = .wrote r → Contract r ∧ tsigAtTruncate req r = false ∧
-      r.q + optLen? (baseOpt false req r) ≤ limit req (t.cap cfgMax))
-    (hq : qe + optLen? (baseOpt false req (errResp qe none)) ≤ limit req (t.cap cfgMax))
-    (hq2 : qe + optLen? (baseOpt false req (errResp qe (edeOpt req))) ≤ limit req (t.cap cfgMax)) :
+    (hh : ∀ r, h = .wrote r → Contract r ∧ tsigAtTruncate req r = false ∧ r.q + 11 ≤ 512)
+    (hq : qe + 11 ≤ 512) :
     o.wire ≤ limit req (t.cap cfgMax) := by
   obtain ⟨_, r', d', s', rfl, hr⟩ := respond_is_serve t cfgMax idle hdr qe req h draw slack draw2 o ho
   have hce : ∀ op, Contract (errResp qe op) := by
@@ -582,11 +544,11 @@ theorem respond_udp_bound_partial (t : Transport) (ht : t.isUdp = true) (cfgMax 
     refine ⟨by simp [errResp, sum], ?_, ?_⟩ <;> intro k <;> simp [errResp, sum]
   rcases hr with hr | hr | hr
   · obtain ⟨hc, htsig, hfit⟩ := hh r' hr
-    exact udp_bound_partial t ht cfgMax idle req r' d' s' hc htsig hfit
+    exact udp_bound t ht cfgMax idle req r' d' s' hc htsig hfit
   · subst hr
-    exact udp_bound_partial t ht cfgMax idle req _ d' s' (hce _) (by simp [tsigAtTruncate, errResp]) hq
+    exact udp_bound t ht cfgMax idle req _ d' s' (hce _) (by simp [tsigAtTruncate, errResp]) hq
   · subst hr
-    exact udp_bound_partial t ht cfgMax idle req _ d' s' (hce _) (by simp [tsigAtTruncate, errResp]) hq2
+    exact udp_bound t ht cfgMax idle req _ d' s' (hce _) (by simp [tsigAtTruncate, errResp]) hq
 
 /-- **respond_padding_only_when.** Unless the transport is DoT/DoH/DoQ and the client sent the
 padding option, no message caused by the query carries padding the handler did not put there. -/
@@ -596,11 +558,12 @@ theorem respond_padding_only_when (t : Transport) (cfgMax idle : Nat) (hdr : QHd
     (hn : ¬ (t.hasPadding = true ∧ reqHas codePadding req = true)) :
     lensOf? codePadding o.opt = lensOf? codePadding h.opt ∨ lensOf? codePadding o.opt = [] := by
   obtain ⟨_, r', d', s', rfl, hr⟩ := respond_is_serve t cfgMax idle hdr qe req h draw slack draw2 o ho
-  have := padding_only_when t cfgMax idle req r' d' s' hn
-  rcases hr with hr | hr | hr
-  · left; rw [this, hr]; rfl
-  · right; rw [this, hr]; rfl
-  · right; rw [this, hr]; cases req <;> rfl
+  rcases padding_only_when t cfgMax idle req r' d' s' hn with this | this
+  · rcases hr with hr | hr | hr
+    · left; rw [this, hr]; rfl
+    · right; rw [this, hr]; rfl
+    · right; rw [this, hr]; cases req <;> rfl
+  · right; exact this
 
 /-- **respond_keepalive_only_when.** Unless the message is written by the TCP/DoT writer and the
 client sent the keep-alive option, no message caused by the query carries a keep-alive option the
@@ -611,11 +574,12 @@ theorem respond_keepalive_only_when (t : Transport) (cfgMax idle : Nat) (hdr : Q
     (hn : ¬ (t.hasKeepAlive = true ∧ reqHas codeKeepAlive req = true)) :
     lensOf? codeKeepAlive o.opt = lensOf? codeKeepAlive h.opt ∨ lensOf? codeKeepAlive o.opt = [] := by
   obtain ⟨_, r', d', s', rfl, hr⟩ := respond_is_serve t cfgMax idle hdr qe req h draw slack draw2 o ho
-  have := keepalive_only_when t cfgMax idle req r' d' s' hn
-  rcases hr with hr | hr | hr
-  · left; rw [this, hr]; rfl
-  · right; rw [this, hr]; rfl
-  · right; rw [this, hr]; cases req <;> rfl
+  rcases keepalive_only_when t cfgMax idle req r' d' s' hn with this | this
+  · rcases hr with hr | hr | hr
+    · left; rw [this, hr]; rfl
+    · right; rw [this, hr]; rfl
+    · right; rw [this, hr]; cases req <;> rfl
+  · right; exact this
 
 /-- A query with two questions and an OPT record: FORMERR with the OPT echoed, on every transport. -/
 def twoQuestions : QHdr := { response := false, opcode := 0, nq := 2, nans := 0, nns := 0 }
@@ -642,9 +606,97 @@ theorem dnscrypt_silent_legacy_counterexample :
     (rawServfail 29) (by decide)
   simp [rawServfail] at h1
 
+/-! ## The DNSCrypt envelope
+
+`dnsCryptHandler.ServeDNS` hands the normalised message to the `ameshkov/dnscrypt` library, which
+truncates it a second time (to the advertised size − 64), pads, encrypts and, on TCP, frames it.
+These theorems are about what the DNSCrypt *client* sees after decryption, and about the frame. -/
+
+/-- **dc_udp_visible_le.** DNSCrypt/UDP: the library's truncation can only tighten the bound: the
+message the client decrypts is at most `max(512, advertised)` bytes, unless header + question + OPT
+alone exceed that (which `udp_bound` rules out for the message AdGuard DNS hands over). -/
+theorem dc_udp_visible_le (adv : Nat) (r1 : Resp) (opt : Option Opt) (hc : Contract r1) :
+    finalLen r1 (dcTruncate true false adv r1 opt) opt ≤ max (max adv 512) (r1.q + optLen? opt) := by
+  have := finalLen_truncate_le (dcSize true adv) r1 opt hc
+  simp only [dcTruncate, ↓reduceIte]
+  simp only [dcSize, minMsgSize, ↓reduceIte] at this ⊢
+  omega
+
+/-- **dc_udp_tc_no_answers.** DNSCrypt/UDP: whatever the library truncates leaves with TC set and
+an empty answer section. -/
+theorem dc_udp_tc_no_answers (x : Bool) (adv : Nat) (r1 : Resp) (opt : Option Opt) :
+    (dcTruncate true x adv r1 opt).tc = true → (dcTruncate true x adv r1 opt).ka = 0 := by
+  simp only [dcTruncate, ↓reduceIte]
+  exact truncate_tc_ka _ _ _ _
+
+/-- **dc_enc_len.** The encrypted response is 49..113 bytes longer than the DNS message (at least
+304 bytes): 48 bytes of magic, nonce and tag plus 1..64 bytes of padding. -/
+theorem dc_enc_len (len : Nat) :
+    len + 49 ≤ dcEncLen len ∧ dcEncLen len ≤ max 304 (len + 113) := by
+  unfold dcEncLen dcPadded
+  have hm := Nat.mod_lt (len + 1) (show 0 < 64 by decide)
+  generalize (len + 1) % 64 = m at hm ⊢
+  omega
+
+/-- **dc_frame_ok_iff.** The DNSCrypt/TCP frame is well-formed exactly for DNS messages of at most
+65470 bytes. -/
+theorem dc_frame_ok_iff (len : Nat) : dcFrameOk len = true ↔ len ≤ 65470 := by
+  unfold dcFrameOk dcEncLen dcPadded
+  simp only [decide_eq_true_eq]
+  omega
+
+/-- **dc_tcp_frame_counterexample.** The library truncates TCP responses to 65471 bytes, one byte
+more than fits: a 65471-byte message is padded to 65536, encrypted to 65584 bytes and framed with
+the length prefix 48 (known finding `dnscrypt-tcp-frame-length-wraps`). -/
+theorem dc_tcp_frame_counterexample :
+    ¬ ∀ len, len ≤ dcSize false 0 → dcFrameOk len = true := by
+  intro h
+  have := h 65471 (by decide)
+  revert this
+  decide
+
+example : dcSize false 0 = 65471 ∧ dcEncLen 65471 = 65584 ∧ dcPrefix 65471 = 48 ∧
+    dcFrameOk 65470 = true ∧ dcEncLen 65470 = 65520 ∧ dcSize true 1232 = 1168 ∧
+    dcSize true 0 = 448 ∧ dcEncLen 40 = 304 := by decide
+
+def dcBigResp : Resp :=
+  { tc := false, q := 29, unc := 65529, ans := [30000, 30000, 5500], ns := [], extra := [],
+    ns2 := [], extra2 := [], opt := none }
+
+theorem dcBigResp_contract : Contract dcBigResp := by
+  refine ⟨by decide, ?_, ?_⟩
+  · intro kn; simp [dcBigResp, sum]
+  · intro ke; simp [dcBigResp, sum]
+
+/-- **dc_tcp_truncated_with_answers_counterexample.** DNSCrypt/TCP: a response of 65472..65535
+bytes passes AdGuard's `normalize` untouched and is then cut by the library, which sets TC but —
+on TCP — leaves the remaining answers in place: the "TC ⇒ empty answer section" clause is false
+there (known finding `dnscrypt-tcp-truncated-with-answers`). -/
+theorem dc_tcp_truncated_with_answers_counterexample :
+    ¬ ∀ (adv : Nat) (r1 : Resp) (opt : Option Opt), Contract r1 →
+      (dcTruncate false false adv r1 opt).tc = true → (dcTruncate false false adv r1 opt).ka = 0 := by
+  intro h
+  have := h 0 dcBigResp none dcBigResp_contract (by decide)
+  revert this
+  decide
+
+example : (serve .dcTcp 0 0 none dcBigResp 0 0).cut = { ka := 3, kn := 0, ke := 0, tc := false } ∧
+    dcTruncate false false 0 dcBigResp none = { ka := 2, kn := 0, ke := 0, tc := true } := by decide
+
+/-- The library answers only single-question queries without the QR bit: the FORMERR / ignore
+branches of `acceptMsg` for such messages are unreachable over DNSCrypt. -/
+example : dcAccepts twoQuestions = false ∧ dcAccepts goodQuery = true := by decide
+
+#print axioms dc_udp_visible_le
+#print axioms dc_udp_tc_no_answers
+#print axioms dc_enc_len
+#print axioms dc_frame_ok_iff
+#print axioms dc_tcp_frame_counterexample
+#print axioms dc_tcp_truncated_with_answers_counterexample
+#print axioms dcBigResp_contract
 #print axioms udp_wire_le
-#print axioms udp_bound_partial
-#print axioms udp_bound_counterexample
+#print axioms udp_bound
+#print axioms udp_bound_legacy_counterexample
 #print axioms tc_implies_no_answers
 #print axioms dropped_implies_tc
 #print axioms opt_echo
@@ -658,14 +710,13 @@ theorem dnscrypt_silent_legacy_counterexample :
 #print axioms udp_bound_tsig_counterexample
 #print axioms tsigResp_contract
 #print axioms fits_untouched
-#print axioms udp_opt_is_base
+#print axioms udp_opt_is_trunc
 #print axioms udp_bound_everyday
-#print axioms udp_no_amplification
-#print axioms prePack_is_base
+#print axioms prePack_is_trunc
 #print axioms respond_is_serve
 #print axioms respond_opt_echo
 #print axioms respond_stream_guard
-#print axioms respond_udp_bound_partial
+#print axioms respond_udp_bound
 #print axioms respond_padding_only_when
 #print axioms respond_keepalive_only_when
 #print axioms dnscrypt_silent_legacy_counterexample
